@@ -3,7 +3,7 @@ From Coq Require Import List NArith ZArith Arith Bool.
 Import ListNotations.
 From Chiri Require Import Base.Bytes Base.Res Model.Tokenizer Model.TreeParser Model.Markers Model.Format
      Model.Clean Spec.Ranges Spec.Lines Spec.Extents
-     Proofs.CollectProofs Proofs.FormatAssembly Proofs.CleanProofs Proofs.ConfinedProofs.
+     Proofs.CollectProofs Proofs.FormatAssembly Proofs.CleanProofs Proofs.ConfinedProofs Proofs.SeamProofs.
 
 (** The tidying step works on the text left after the removals ([s] below) and the seam positions
     [rpos] (where a removed range used to be).  Every byte it deletes is either
@@ -55,7 +55,20 @@ Theorem C14_outside_extents_only_whitespace_goes :
 Proof. exact clean_only_deletes. Qed.
 Print Assumptions C14_outside_extents_only_whitespace_goes.
 
-(** Non-vacuity: "x  \n  y" with a seam at 3 (an inline removal before the line break): the tidying
-    deletes nothing but whitespace next to the seam. *)
-Example C14_example : format_ranges [120;32;32;10;32;32;121]%N [(3, None)] = Ok [(3, 4)].
-Proof. vm_compute. reflexivity. Qed.
+(** An inline removal at the end of a line keeps the line break (the line is not joined with the
+    next one): neither the empty-line remover nor the indentation remover touches it. *)
+Theorem C14_line_break_after_code_is_kept :
+  forall s p i b,
+    wf_utf8 s = true -> is_boundary s p = true -> nth_error s p = Some NL ->
+    i < p -> nth_error s i = Some b -> is_blank b = false -> b <> NL ->
+    (forall j c, i < j -> j < p -> nth_error s j = Some c -> is_blank c = true) ->
+    empty_line_remover s p = Ok (p, p) /\ indent_remover s p = Ok (p, p).
+Proof. exact seam_after_code_keeps_line_break. Qed.
+Print Assumptions C14_line_break_after_code_is_kept.
+
+(** Non-vacuity: "x\n  \ny" with a seam at 4 (a removed block line, residue "  "): the residue line
+    goes; "x  \n  y" with a seam at 3 (an inline removal before the line break): nothing is deleted. *)
+Example C14_example :
+  format_ranges [120;10;32;32;10;121]%N [(4, None)] = Ok [(2, 5)] /\
+  format_ranges [120;32;32;10;32;32;121]%N [(3, None)] = Ok [(3, 3)].
+Proof. vm_compute. split; reflexivity. Qed.
